@@ -60,7 +60,7 @@ fn plan(prop: &str, tier: Tier) -> Option<Plan> {
     Some(match prop {
         "C03" => Plan {
             level: "exploration",
-            batches: vec![b("W2", "plain", 3000, 60000)],
+            batches: vec![b("W2", "plain", 12000, 120000)],
             assumptions: vec![
                 "the reference is the same real code under the one-chunk schedule, exactly as the property states",
                 "documents are sampled (seeded), single cuts are enumerated per document up to 1200 bytes",
@@ -69,7 +69,7 @@ fn plan(prop: &str, tier: Tier) -> Option<Plan> {
         },
         "C04" => Plan {
             level: "fault_enumeration",
-            batches: vec![b("W2", "conserve", 1500, 30000), b("W2", "faults", 6000, 150000)],
+            batches: vec![b("W2", "conserve", 6000, 60000), b("W2", "faults", 40000, 400000)],
             assumptions: vec![
                 "sentinel values never occur in generated bodies, so inserted bytes are removable",
                 "replace_text filters are excluded: the statement's clauses do not cover whole-body replacement",
@@ -79,7 +79,7 @@ fn plan(prop: &str, tier: Tier) -> Option<Plan> {
         },
         "C14" => Plan {
             level: "exploration",
-            batches: vec![b("W2", "codec", 1600, 40000)],
+            batches: vec![b("W2", "codec", 3000, 60000)],
             assumptions: vec![
                 "flate2 / brotli reader-side decoders and encoders are trusted as independent codecs (the library uses the writer-side types)",
                 "the plain reference is the same real filter code on the decompressed body in one chunk, as the property states",
@@ -87,7 +87,7 @@ fn plan(prop: &str, tier: Tier) -> Option<Plan> {
         },
         "C16" => Plan {
             level: "fault_enumeration",
-            batches: vec![b("W2T", "docs", 4000, 120000), b("W2T", "bytes", 20000, 600000), b("W2T", "big", 16, 64)],
+            batches: vec![b("W2T", "docs", 20000, 200000), b("W2T", "bytes", 150000, 2000000), b("W2T", "big", 16, 64)],
             assumptions: vec![
                 "truncation and late-join points are enumerated per buffer; documents, byte strings and corruption positions are sampled",
                 "the property's 'exhaustively for all strings up to length 7' is bounded enumeration (model checking) and is deliberately not done here",
@@ -96,7 +96,7 @@ fn plan(prop: &str, tier: Tier) -> Option<Plan> {
         },
         "C15" => Plan {
             level: "exploration",
-            batches: vec![b("W2D", "dom", 6000, 150000)],
+            batches: vec![b("W2D", "dom", 60000, 600000)],
             assumptions: vec![
                 "R-dom reference edit (DESIGN appendix A.3): selectors limited to tag, tag.class, tag[attr=\"v\"] that the reference evaluates on its own tree; html/head/body are not selector subjects",
                 "documents satisfy the statement's precondition by construction (path tags unique, replace targets only repeated as siblings)",
@@ -113,7 +113,7 @@ fn plan(prop: &str, tier: Tier) -> Option<Plan> {
         },
         "C01" => Plan {
             level: "exploration",
-            batches: vec![b("W1", "hist", 3000, 60000)],
+            batches: vec![b("W1", "hist", 15000, 150000)],
             assumptions: vec![
                 "R-rule (DESIGN appendix A.1) evaluates the triggers exposed by the public Route accessors; Rule -> Route conversion (URL normalisation, marker compilation) is not re-done (C09/C10)",
                 "domain: unique live ids, exclusion flags in {absent, true}, valid date/time/CIDR strings, paths on which URL normalisation is the identity",
@@ -122,7 +122,7 @@ fn plan(prop: &str, tier: Tier) -> Option<Plan> {
         },
         "C02" => Plan {
             level: "exploration",
-            batches: vec![b("W1", "hist", 3000, 60000), b("W6", "shared-routes", 2000, 100000)],
+            batches: vec![b("W1", "hist", 5000, 80000), b("W6", "shared-routes", 4000, 100000)],
             assumptions: vec![
                 "oracle named by the statement: a router rebuilt from scratch from the live rules, in a seeded insertion order",
                 "snapshot isolation is checked against the answers (ids and captures) recorded when the router was frozen",
@@ -131,21 +131,21 @@ fn plan(prop: &str, tier: Tier) -> Option<Plan> {
         },
         "C17" => Plan {
             level: "exploration",
-            batches: vec![b("W1", "hist", 3000, 60000)],
+            batches: vec![b("W1", "hist", 4000, 60000)],
             assumptions: vec!["cross-invariant on the real code only (no model): trace vs match on the same router after every step of the same histories as C01/C02"],
         },
         "C12" => Plan {
             level: "exploration",
-            batches: vec![b("W1", "cache", 2500, 50000), b("W3", "cache", 12000, 240000), b("W6", "shared-routes", 4000, 200000)],
+            batches: vec![b("W1", "cache", 2500, 50000), b("W3", "cache", 8000, 240000), b("W6", "shared-routes", 4000, 200000)],
             assumptions: vec![
                 "router level: every observation (match ids, Route::capture maps, canonicalised trace) is compared with a twin router that went through the same history from rule values, never cached and sharing no route with the cached one",
-                "tree level: find() compared with an uncached twin tree after every operation; (limit, level) pairs are sampled from {0,1,2,3,5,1000} x {None,0,1,2,3,7}",
+                "tree level: find() compared with an uncached twin tree after every operation; (limit, level) pairs in histories are sampled from {0,1,2,3,5,1000} x {None,0,1,2,3,7}; for one run in twelve (quick) / three (thorough) whose final tree has at most 8 entries the whole grid limit 0..=6 x level {None,0..=4} is applied to clones",
                 "concurrent form: W6 runs readers on the published router while an updater derives a router and warms its cache (which write-locks capture regexes of shared routes), under seeded shuttle schedules (random and PCT); std locks are swapped for shuttle's by hook H6",
             ],
         },
         "C11" => Plan {
             level: "exploration",
-            batches: vec![b("W1", "actions", 2500, 50000)],
+            batches: vec![b("W1", "actions", 5000, 100000)],
             assumptions: vec![
                 "the harness owns the delivery order of matched routes (4 seeded permutations per probe) and the insertion order of rebuilt routers; sampling disabled",
                 "internal hash iteration orders are not behind a seam: they are sampled by rebuilding routers in-process (every HashMap instance has its own key) and by the cross-process determinism self-check",
@@ -153,7 +153,7 @@ fn plan(prop: &str, tier: Tier) -> Option<Plan> {
         },
         "C05" => Plan {
             level: "exploration",
-            batches: vec![b("W5", "fold", 40000, 1500000)],
+            batches: vec![b("W5", "fold", 400000, 4000000)],
             assumptions: vec![
                 "R-fold (DESIGN appendix A.2, about 200 lines in w5.rs) written from the statement; details the statement leaves to the code are mirrored, not second-guessed",
                 "for 0 < sampling < 100 without request override the statement does not say which draws apply: the oracle accepts the reference with the rule in or out, never a partial contribution",
@@ -162,12 +162,12 @@ fn plan(prop: &str, tier: Tier) -> Option<Plan> {
         },
         "C06" => Plan {
             level: "exploration",
-            batches: vec![b("W5", "handoff", 20000, 600000), b("W5", "fold", 10000, 300000)],
+            batches: vec![b("W5", "handoff", 150000, 1500000), b("W5", "fold", 100000, 1000000)],
             assumptions: vec!["no model: the native object and the object that crossed real serde_json text are driven through the same proxy stage history and compared observation by observation"],
         },
         "C18" => Plan {
             level: "exploration",
-            batches: vec![b("W4", "lifecycles", 4000, 100000)],
+            batches: vec![b("W4", "lifecycles", 20000, 200000)],
             assumptions: vec![
                 "the contract for returned char* and HeaderMap nodes is release by the caller with free(): the simulated C caller frees them through the recorded layout",
                 "trusted-proxy objects have no drop function by design and are excluded from the balance; a leak counts only if two measured passes after a warm-up pass both leak",
@@ -176,7 +176,7 @@ fn plan(prop: &str, tier: Tier) -> Option<Plan> {
         },
         "C19" => Plan {
             level: "exploration",
-            batches: vec![b("W1A", "analyses", 4000, 100000)],
+            batches: vec![b("W1A", "analyses", 20000, 200000)],
             assumptions: vec![
                 "outputs are compared as canonicalised JSON: arrays that come out of hash iteration (match traces, trace children, routes) are sorted, everything else keeps its order",
                 "at most 12 rules with examples per call, so the 'first ten' maps are not truncated differently by hash order",
@@ -186,7 +186,7 @@ fn plan(prop: &str, tier: Tier) -> Option<Plan> {
         "C07" => Plan {
             level: "exploration",
             batches: vec![
-                b("W7", "hostile", 20000, 600000),
+                b("W7", "hostile", 60000, 1000000),
                 b("W4", "hostile", 2000, 50000),
                 b("W2", "faults", 3000, 60000),
                 b("W2", "plain", 500, 10000),
@@ -261,7 +261,41 @@ fn cmd_check(prop: &str, tier: Tier) -> i32 {
     let mut herr: Vec<String> = Vec::new();
     let hashes = std::env::var("VERIF_HASHES").is_ok();
     for b in &plan.batches {
-        let res = run_batch(b, prop, tier, seed, hashes);
+        // C11: internal hash orders are not behind a seam; they are sampled by running the batch in two
+        // independent sets of child processes (different HashMap keys) and diffing the per-run logs,
+        // which include the serialised action of every probe (DESIGN §3 C11)
+        let cross = prop == "C11";
+        let res = run_batch(b, prop, tier, seed, hashes || cross);
+        if cross {
+            let again = run_batch(b, prop, tier, seed, true);
+            let mut diffs: Vec<u64> = res.hashes.iter().filter(|(i, h)| again.hashes.get(i) != Some(h)).map(|(i, _)| *i).collect();
+            diffs.sort_unstable();
+            println!(
+                "  cross-process pass: {} runs re-executed in fresh processes, {} logs differ",
+                again.hashes.len(),
+                diffs.len()
+            );
+            herr.extend(again.harness_errors.iter().cloned());
+            for i in diffs.iter().take(2) {
+                // reported with the generated case; reproducible only statistically (hash keys are per process)
+                let path = format!("{}/replays/C11-{}-{}-s{seed}-r{i}-differs-across-processes.json", verif_dir(), b.world, b.mode);
+                let _ = std::fs::create_dir_all(format!("{}/replays", verif_dir()));
+                let note = json!({
+                    "format": 1, "world": b.world, "mode": b.mode, "property": "C11", "clause": "differs-across-processes",
+                    "detail": format!("run {i}: event log hash {:?} in the first process set, {:?} in the second; the log contains the serialised action of every probe, so the action depends on something outside the seeded inputs (internal hash iteration order)", res.hashes.get(i), again.hashes.get(i)),
+                    "seed": seed, "run": i, "tier": tier.name(), "minimised": false, "min_candidates": 0, "min_budget_exhausted": false,
+                    "case": serde_json::Value::Null, "components": serde_json::Value::Null,
+                    "how_to_reproduce": format!("VERIF_SEED={seed} ./check C11 {} (run index {i}); hash keys are per process, so this reproduces statistically", tier.name()),
+                });
+                let _ = std::fs::write(&path, serde_json::to_string_pretty(&note).unwrap());
+                rep.violations.push(Violation {
+                    prop: "C11".to_string(),
+                    clause: "differs-across-processes".to_string(),
+                    detail: note["detail"].as_str().unwrap_or("").to_string(),
+                    replay_path: path,
+                });
+            }
+        }
         println!(
             "  batch {}/{}: runs={} evaluations={} distinct={} unexplained_failing_runs={} deaths={} wall={:.1}s",
             b.world,
